@@ -316,6 +316,91 @@ pub fn one_case(rep: &Report, idx: usize, case: &CCase, inj: &Injection, keep: b
     res.err()
 }
 
+/// Write faults during a CLI compress: one write() to the temp file or to the archive itself
+/// fails once (the last one, the last but one, a random one; several errno classes). The
+/// run may fail. A run that reports success claims to have written an archive, and that
+/// archive must conform like any other ("every archive written by compress ...").
+fn write_fault_case(rep: &Report, idx: usize, seed: u64) -> Option<String> {
+    use crate::refimpl::chunker::{Algo, Cfg};
+    let mut rng = Rng::new(seed).fork(0x11f0 + idx as u64);
+    let dir = scn::case_dir("C11", 60_000 + idx);
+    let res = (|| -> Result<(), String> {
+        let cfg = match idx % 3 {
+            0 => Cfg::fixed(rng.urange(500, 5000)),
+            1 => Cfg { algo: Algo::RollSum, window: 16, min: 256, max: 8192, bits: 10 },
+            _ => Cfg { algo: Algo::BuzHash, window: 16, min: 512, max: 8192, bits: 10 },
+        };
+        let comp = *rng.pick(&[crate::gen::Comp::None, crate::gen::Comp::Brotli(2), crate::gen::Comp::Zstd(2)]);
+        let src_len = rng.urange(20_000, 120_000);
+        let class = *rng.pick(&[crate::gen::SrcClass::Random, crate::gen::SrcClass::LowEntropy, crate::gen::SrcClass::MixedEntropy]);
+        let source = crate::gen::gen_source(&mut rng, class, src_len);
+        let mut spec = scn::CompressSpec::new(cfg, comp, *rng.pick(&[8usize, 32, 64]));
+        spec.buffered = *rng.pick(&[None, Some(1), Some(3)]);
+        if ccommon::truncated_collision(&source, &spec.cfg, spec.hash_len) {
+            rep.inconclusive("truncated-hash collision in generated source");
+            return Ok(());
+        }
+        let (mut run, out_path) = scn::compress_run(&dir, "w", &source, &spec);
+        let temp = scn::temp_path_of(&out_path);
+        run.watch = vec![temp.clone(), out_path.clone()];
+        let o = proc::run(&run);
+        rep.eval();
+        if !o.exit.ok() {
+            rep.inconclusive("write-fault reference run did not succeed");
+            return Ok(());
+        }
+        let count = |w: i32| o.shim.iter().filter(|r| r.widx == w && (r.kind == proc::K_WRITE || r.kind == proc::K_PWRITE || r.kind == proc::K_COPY) && r.ret > 0).count();
+        let (tw, ow) = (count(0), o.shim.iter().filter(|r| r.widx == 1 && (r.kind == proc::K_WRITE || r.kind == proc::K_PWRITE) && r.ret > 0).count());
+        rep.count("write_fault.temp_writes_seen", tw as u64);
+        rep.count("write_fault.archive_writes_seen", ow as u64);
+        let mut jobs: Vec<(i32, usize)> = Vec::new();
+        if tw > 0 {
+            jobs.push((0, tw - 1));
+            if tw > 1 {
+                jobs.push((0, tw - 2));
+                jobs.push((0, rng.usize_below(tw - 1)));
+            }
+        }
+        if ow > 0 {
+            jobs.push((1, ow - 1));
+            jobs.push((1, 0));
+        }
+        spec.force = true;
+        for (j, (w, k)) in jobs.into_iter().enumerate() {
+            let e = [libc::EIO, libc::ENOSPC, libc::EDQUOT, libc::EPIPE, libc::EAGAIN][(idx + j) % 5];
+            let _ = std::fs::remove_file(&out_path);
+            let _ = std::fs::remove_file(&temp);
+            let (mut run, _) = scn::compress_run(&dir, "w", &source, &spec);
+            run.watch = vec![temp.clone(), out_path.clone()];
+            run.fault = Some(format!("{},{},errno,{}", w, k, e));
+            let o = proc::run(&run);
+            rep.eval();
+            if o.exit == proc::Exit::Timeout {
+                rep.inconclusive("watchdog (write fault)");
+                continue;
+            }
+            if !o.shim.iter().any(|r| r.kind == proc::K_FAULT) {
+                rep.count("write_fault.not_reached", 1);
+                continue;
+            }
+            rep.count("write_fault.fired", 1);
+            if !o.exit.ok() {
+                rep.count("write_fault.runs_that_failed_loudly", 1);
+                continue;
+            }
+            rep.count("write_fault.runs_that_succeeded", 1);
+            let bytes = std::fs::read(&out_path).map_err(|_| format!("compress exited 0 after write #{} to the {} failed with errno {}, but there is no archive", k, if w == 0 { "temp file" } else { "archive" }, e))?;
+            ccommon::conformance(&bytes, &source, &spec).map_err(|why| {
+                format!("write #{} to the {} failed once with errno {}: compress exited 0 but the archive does not conform: {}", k, if w == 0 { "temp file" } else { "archive" }, e, why)
+            })?;
+        }
+        rep.nontrivial(format!("writefault:{}#{}", spec.describe(), idx));
+        Ok(())
+    })();
+    scn::cleanup(&dir, res.is_err());
+    res.err()
+}
+
 fn self_test(rep: &Report) {
     if let Err(e) = codec::self_test() {
         rep.broken(format!("R2 self-test: {}", e));
@@ -405,11 +490,23 @@ pub fn run(tier: Tier, seed: u64) -> i32 {
             );
         }
     }
+    {
+        let nf = tier.pick(12, 150);
+        let out = par_map(nf, crate::util::ncpu(), |i| (i, write_fault_case(&rep, i, seed)));
+        for (i, r) in out {
+            if let Some(why) = r {
+                rep.violation("c11/write-fault/archive does not conform", json!({"why": why}), json!({"engine": "writefault", "idx": i, "seed": seed}));
+            }
+        }
+        if rep.counter("write_fault.fired") == 0 {
+            rep.broken("no write fault fired during compress".into());
+        }
+    }
     if rep.counter("descriptors_checked") == 0 || rep.counter("info_outputs_checked") == 0 {
         rep.broken("no archive was decoded / no info output checked".into());
     }
     rep.finish(
-        "each case = (source class, length class, chunker config, compression, hash length, buffered-chunks, writer in {CLI file, CLI stdin, library}, metadata map) compressed once under seeded delay injection (worker hooks, temp-file writes, input reads, thread count); the archive bytes are judged by R2's strict decoder + R1 descriptor order + requested options, `bita info` and the reader accessors; non-trivial = distinct (source class, length class, writer, algorithm, codec, hash length) with >= 2 descriptors or an empty/1-byte source",
+        "each case = (source class, length class, chunker config, compression, hash length, buffered-chunks, writer in {CLI file, CLI stdin, library}, metadata map) compressed once under seeded delay injection (worker hooks, temp-file writes, input reads, thread count); the archive bytes are judged by R2's strict decoder + R1 descriptor order + requested options, `bita info` and the reader accessors; write-fault cases: one write() to the temp file or the archive fails once (last / last but one / random / first; EIO, ENOSPC, EDQUOT, EPIPE, EAGAIN) - exit 0 must still mean a conforming archive; non-trivial = distinct (source class, length class, writer, algorithm, codec, hash length) with >= 2 descriptors or an empty/1-byte source",
         &[
             "R2 (independent codec) and R1 (reference chunker) are the trusted base",
             "payload codecs (brotli, zstd, lzma crates) are used directly and trusted",
@@ -422,6 +519,20 @@ pub fn run(tier: Tier, seed: u64) -> i32 {
 
 pub fn replay(v: &Value) -> i32 {
     let r = &v["replay"];
+    if r["engine"] == "writefault" {
+        let rep = Report::new("C11", "exploration", Tier::Quick, r["seed"].as_u64().unwrap_or(1));
+        return match write_fault_case(&rep, r["idx"].as_u64().unwrap_or(0) as usize, r["seed"].as_u64().unwrap_or(1)) {
+            Some(why) => {
+                println!("replay: VIOLATED: {}", why);
+                println!("VIOLATION property=C11 replay=(replayed)");
+                1
+            }
+            None => {
+                println!("replay: property held on this case");
+                0
+            }
+        };
+    }
     let case = CCase::from_json(&r["case"]);
     let inj = Injection::from_json(&r["inj"]);
     let mut rep = Report::new("C11", "exploration", Tier::Quick, 0);
